@@ -165,6 +165,8 @@ def check(ctx):
     sibling_caps(ctx, repo)
     nonneg_targets(ctx, s, dates)
     bound_direction(ctx, repo)
+    cap_dominates(ctx, s, dates)
+    capped_alias(ctx, repo)
     ctx.extra_cov["denominators_discharged_by"] = discharged_by
     ctx.extra_cov["dates"] = len(dates)
     ctx.sample({"discharged_by": discharged_by})
@@ -364,6 +366,8 @@ def nonneg_targets(ctx, s, dates):
 
     ctx.rule("N", "every default target is provably non-negative: on every path from a difference `a - b` to a target there is a guard ordering a and b, a max(., 0) clamp, or bounds of the operands (caps such as min(n - 1, 4), parameter values) that keep it >= 0")
     ctx.rule("N-ctx", "a formula reviewed as non-negative only inside the transition zone is read by its consumers only under `in_gleitzone`")
+    ctx.rule("N2", "in the transfer rules, what is subtracted inside a clamp max(0, need - x) is provably non-negative (a negative credited income would lift the benefit above the need computed from the parameters); one report per root cause")
+    n2_sites, n2_checked = {}, 0
     targets = list(s.repo.default_targets)
     proved = 0
     seen_v = set()
@@ -391,6 +395,25 @@ def nonneg_targets(ctx, s, dates):
                         continue
                     seen_v.add(key)
                     ctx.violation("N", key, f"src/_gettsim/{modrel}:{line} {q.split(':')[-1]}", (f"at {d} the default target {t} can become negative: {q.split(':')[-1]} computes the {kind} `{text}` with no guard ordering its operands, no bound that keeps it >= 0 and no max(., 0) clamp between it and {t}" if kind != "possibly negative input" else f"at {d} the default target {t} can become negative: the input column {text} may be negative (losses) and flows through {q.split(':')[-1]} to {t} without a max(., 0) clamp"))
+        # N2: what a transfer rule subtracts inside max(0, need - x) is itself >= 0
+        for nname, evs in sorted(sp.clamped.items()):
+            rule_ = dag.nodes[nname].rule
+            if not rule_.mod.rel.startswith("transfers/"):
+                continue
+            for e in evs:
+                site, subtxt, own_origins, deps = e[3], e[4], e[5], e[6]
+                evidence = [(rule_.qual, tuple(o)) for o in own_origins]
+                for a in deps:
+                    if sp.sign(a) is None:
+                        for bn, bq, og, note in sp.blame(a):
+                            evidence += [(bq or bn, tuple(o)) for o in sorted(og)]
+                ctx.ob("N2", ok=not evidence, distinct=(rule_.qual, subtxt))
+                if not evidence:
+                    raise AnalysisError(f"N2: the sign of `{subtxt}` in {rule_.qual} at {d} is unknown without a construct to point at; the sign domain needs a re-read")
+                roots = sorted({(q, o[0], o[3]) for q, o in evidence})
+                key = "N2|" + ";".join(f"{q}:{k}:{t}" for q, k, t in roots)
+                n2_sites.setdefault(key, (roots, []))[1].append((str(d), rule_, site, subtxt))
+        n2_checked += sum(1 for nm in sp.memo if nm in dag.nodes and dag.nodes[nm].kind == "rule" and dag.nodes[nm].rule.mod.rel.startswith("transfers/"))
         # context of the reviewed transition-zone formulas
         for (q, text) in sorted(sp.used_reviewed):
             flag = REVIEWED_DIFFERENCES[(q, text)][1]
@@ -404,6 +427,12 @@ def nonneg_targets(ctx, s, dates):
             if not ok and f"ctx|{q}|{why}" not in seen_v:
                 seen_v.add(f"ctx|{q}|{why}")
                 ctx.violation("N-ctx", f"{q}|{why}", node.rule.where, f"at {d} {node.name} (non-negative only inside the transition zone: `{text}`) is read outside `{flag}`: {why}")
+    for key, (roots, sites) in sorted(n2_sites.items()):
+        consumers = sorted({f"{r_.name} (`{site[:60]}`)" for _, r_, site, _ in sites})
+        first = sites[0]
+        cause = "; ".join(f"{q.split(':')[-1]}: {k} `{t}`" for q, k, t in roots[:6])
+        ctx.violation("N2", key, first[1].where, f"from {first[0]}: {', '.join(consumers[:4])} subtract `{first[3]}` inside a clamp at zero, but that amount can be negative ({cause}): the clamped benefit / shortfall then exceeds the need it is computed from")
+    ctx.ob("N2", ok=True, distinct="transfer rules interpreted", n=max(n2_checked, 1))
     for k, (reason, _flag) in REVIEWED_DIFFERENCES.items():
         ctx.info(f"N reviewed difference {k[0]} `{k[1]}`: {reason}") if hasattr(ctx, "info") else None
     ctx.extra_cov["N_targets_proved"] = proved
@@ -452,3 +481,99 @@ def bound_direction(ctx, repo):
                     ctx.violation("D", f"{r.qual}|{ast.unparse(c)[:80]}", f"src/_gettsim/{r.mod.rel}:{c.lineno} {r.name}", f"`{ast.unparse(c)[:90]}` uses the {'upper' if up else 'lower'} bound `{key}` as a {'floor' if up else 'ceiling'}: the amount is lifted to at least the cap instead of being limited by it" if up else f"`{ast.unparse(c)[:90]}` uses the lower bound `{key}` as a ceiling: the amount is cut to at most the minimum instead of being raised to it")
     ctx.extra_cov["D_sites"] = n
     ctx.floor("D", 8)
+
+
+def cap_dominates(ctx, s, dates):
+    """B: when the value a rule returns is built from a capped term `min(x, P_upper)` through min / max / conditional
+    selection only (no arithmetic on the way to the result), the result is bounded in the interval domain; a
+    `max(unbounded, min(x, P_upper))` applies the cap to one operand and lets the other one through."""
+    from staticlib.absint import ub_of
+    from staticlib.ordersem import NotExpressible, function_as_expression
+    from staticlib.signs import SignProver
+
+    ctx.rule("B", "a result formed from a term capped by an upper-bound parameter through min / max / selection only has a finite upper bound (the cap is applied last, not to one operand of a max)")
+    cands = {}
+    for r in s.repo.rules:
+        try:
+            e = function_as_expression(r.node)
+        except NotExpressible:
+            continue
+        parent = {}
+        for n in ast.walk(e):
+            for c in ast.iter_child_nodes(n):
+                parent[c] = n
+        for c in ast.walk(e):
+            if isinstance(c, ast.Call) and isinstance(c.func, ast.Name) and c.func.id == "min" and any(
+                    isinstance(a, ast.Subscript) and isinstance(a.slice, ast.Constant) and isinstance(a.slice.value, str) and _UPPER.search(a.slice.value) for a in c.args):
+                n = c
+                lattice_only = True
+                while n in parent:
+                    p = parent[n]
+                    if isinstance(p, ast.Call) and isinstance(p.func, ast.Name) and p.func.id in ("min", "max", "float"):
+                        pass
+                    elif isinstance(p, ast.IfExp) and n is not p.test:
+                        pass
+                    else:
+                        lattice_only = False
+                        break
+                    n = p
+                if lattice_only:
+                    cands[r.qual] = (r, ast.unparse(c)[:70])
+    n_ob = 0
+    seen = set()
+    for d in dates:
+        sp = None
+        dag = s.dag(d)
+        for name, node in dag.nodes.items():
+            if node.kind != "rule" or node.rule.qual not in cands or not s.is_scalar_rule(node.rule):
+                continue
+            if sp is None:
+                sp = SignProver(s, d, POSSIBLY_NEGATIVE_INPUTS)
+                sp.reviewed = {k: v[0] for k, v in REVIEWED_DIFFERENCES.items()}
+            r, site = cands[node.rule.qual]
+            for a in r.argnames:
+                if not a.endswith("_params"):
+                    sp.sign(a)
+            rr = s.analyse_rule(r, d, sign_fn=lambda a: (sp.sign(a), *sp.bounds.get(a, (None, None))))
+            ub = ub_of(rr.res)
+            ok = ub is not None
+            n_ob += 1
+            ctx.ob("B", ok=ok, distinct=(r.qual, str(d)))
+            if not ok and r.qual not in seen:
+                seen.add(r.qual)
+                ctx.violation("B", f"{r.qual}|{site}", r.where, f"at {d} {r.name} applies the cap `{site}` but its result has no upper bound: the capped term is combined by max / selection with an amount that grows with the data (e.g. a rate times the number of children), so the parameter no longer limits the result")
+    ctx.floor("B", 3)
+
+
+def capped_alias(ctx, repo):
+    """S-alias: a function that binds `c = min(arg, <parameter>)` has decided that `arg` counts only up to the
+    parameter; using the raw `arg` in arithmetic elsewhere in the same function is the deviant site (a term
+    extrapolated with the uncapped count, while its siblings use the capped one)."""
+    ctx.rule("S-alias", "in a function that caps one of its arguments against a parameter (`c = min(arg, P)`), the uncapped argument does not appear as an operand of + - * / elsewhere")
+    n = 0
+    for r in repo.rules:
+        caps = {}
+        for st in ast.walk(r.node):
+            if isinstance(st, ast.Assign) and len(st.targets) == 1 and isinstance(st.targets[0], ast.Name) and isinstance(st.value, ast.Call) \
+                    and isinstance(st.value.func, ast.Name) and st.value.func.id == "min" and len(st.value.args) == 2:
+                a, b = st.value.args
+                for raw, other in ((a, b), (b, a)):
+                    data_names = {x.id for x in ast.walk(other) if isinstance(x, ast.Name) and x.id in r.argnames and not x.id.endswith("_params")}
+                    local_names = {x.id for x in ast.walk(other) if isinstance(x, ast.Name) and x.id not in r.argnames}
+                    if isinstance(raw, ast.Name) and raw.id in r.argnames and not raw.id.endswith("_params") and not data_names and st.targets[0].id != raw.id:
+                        # locals in the bound must themselves be parameter-valued (assigned from params only)
+                        ok_local = True
+                        for ln in local_names:
+                            defs = [x.value for x in ast.walk(r.node) if isinstance(x, ast.Assign) and isinstance(x.targets[0], ast.Name) and x.targets[0].id == ln]
+                            if not defs or any(any(isinstance(y, ast.Name) and y.id in r.argnames and not y.id.endswith("_params") for y in ast.walk(dv)) for dv in defs):
+                                ok_local = False
+                        if ok_local:
+                            caps[raw.id] = (st.targets[0].id, st)
+        for raw, (alias, st) in caps.items():
+            n += 1
+            uses = [b for b in ast.walk(r.node) if isinstance(b, ast.BinOp) and isinstance(b.op, (ast.Add, ast.Sub, ast.Mult, ast.Div))
+                    and any(isinstance(side, ast.Name) and side.id == raw for side in (b.left, b.right))]
+            ctx.ob("S-alias", ok=not uses, distinct=(r.qual, raw))
+            for b in uses:
+                ctx.violation("S-alias", f"{r.qual}|{raw}|{ast.unparse(b)[:60]}", f"src/_gettsim/{r.mod.rel}:{b.lineno} {r.name}", f"`{ast.unparse(b)[:80]}` computes with the uncapped `{raw}` although the function caps it as `{alias} = {ast.unparse(st.value)[:60]}`: this term keeps growing beyond the cap the sibling terms respect")
+    ctx.floor("S-alias", 5)
